@@ -493,3 +493,55 @@ class CatalogFromDict:
             and f.get('filters') == [] and f.get('metadata') == {})
         yield 'access time restored', z3.BoolVal(f.get('date_accessed') is _t)
         yield 'no region in the dictionary: none invented', z3.BoolVal(f.get('region') is None)
+
+
+# ---------------------------------------------------------------------------------------------------
+# C03 on quadtree regions: spatial_counts over the QuadtreeGrid2D.get_index_of contract
+# ---------------------------------------------------------------------------------------------------
+QGIO = 'csep.core.regions.QuadtreeGrid2D.get_index_of'
+
+
+@contract
+class SpatialCountsQuadtree:
+    qualname = CATCLS + '.spatial_counts'
+    case = 'quadtree region, every event inside the grid'
+    properties = ('C03',)
+
+    def params(c):
+        import contracts.quadtree  # noqa: F401
+        from pyvc.core import Opaque
+        n = c.int('ncells')
+        c.ctx.assume(n >= 1)
+        bounds = c.arr2('bounds', 'float64', (n, 4))
+        region = c.obj('csep.core.regions.QuadtreeGrid2D', bounds=bounds, polygons=Opaque('polygons', len=lambda I: n), name='quadtree')
+        cat, data = mk_catalog(c, region=region)
+        return dict(self=cat, _b=bounds, _data=data)
+
+    def requires(c, self, _b, _data):
+        B, n = _b.fun, to_z3(_b.shape[0])
+        t = z3.Int('t!rq')
+        lon, lat = to_real(_data.fields['longitude'].f((t,))), to_real(_data.fields['latitude'].f((t,)))
+        k = z3.Int('k!rq')
+        return [z3.ForAll([t], z3.Implies(z3.And(0 <= t, t < _data.n), z3.Exists([k], z3.And(
+            0 <= k, k < n, lon >= B(k, 0), lat >= B(k, 1), lon < B(k, 2), lat < B(k, 3)))),
+            patterns=[_data.fields['longitude'].f((t,))])]
+
+    def ensures(c, r, self, _b, _data):
+        n, m = to_z3(_b.shape[0]), _data.n
+        yield 'one count per cell', to_z3(r.shape[0]) == n
+        call = last_call(c, QGIO)
+        i = c.ctx.fresh_int('i!sk')
+        val = to_real(r.f((i,)))
+        if call is None:
+            yield 'empty catalog: all zero', z3.And(m == 0, z3.Implies(z3.And(0 <= i, i < n), val == 0))
+            return
+        idx = call[2]
+        cn = find_app(val, 'CNT')
+        if cn is not None:
+            h = pointwise_count_hint(c, 'an event is counted in cell i iff the grid attributes it to i', cn,
+                                     lambda t: to_z3(idx.f((t,))) == i, m)
+            if h:
+                yield h[0], z3.Implies(z3.And(0 <= i, i < n), h[1]), h[2]
+        yield 'counts[i] == #{events whose (first) containing cell is i}', z3.Implies(
+            z3.And(0 <= i, i < n), val == z3.ToReal(cnt(lambda t: to_z3(idx.f((t,))) == i, m)))
+        yield 'total == number of events', to_real(sum_term(c.L, r)) == z3.ToReal(m)
